@@ -57,6 +57,14 @@ CLAIMED = {
          "Theorems in coq/Props/C20.v: the WHERE text is the printer's token list; read back with standard SQL precedence it has the criteria tree's boolean structure up to associativity; a string operand is strconv.Quote's text, which scanned with backslash escapes ends exactly at its last character; scalar forms. Every run prints generated criteria trees (depth <= 4, all connective nestings, BETWEEN / IN / LIKE / IS NULL, strings with quotes, backslashes, control and non-ASCII bytes, numbers across 2^63, names bound and unbound in the environment) through ext.CompileToSql and compares the text with the model's, re-reads it with a precedence reader and checks every literal.",
          "Trusted: Coq kernel, extraction, driver, harness. SQL dialect assumed for the literal scan: MySQL default mode (backslash escapes). Ill-typed criteria (which CompileToSql refuses by panicking at construction) are outside the model.",
          "DESIGN.md §5 C20"),
+ "C04": ("Coq characterisation lemmas for the reference built-in semantics; exhaustive boundary-operand correspondence of every built-in on four back ends",
+         "coq/Model/Builtins.v + Eval.v are the reference semantics; theorems in coq/Props/C04.v characterise it declaratively (set operations, get / isset, tolerance comparison laws, rune counting, radix literals; every row of the regenerated built-in table is modelled). Every run applies every built-in to all combinations of boundary operands (tolerance edges, -0, 2^53+1, 2^63, +-Inf, NaN, non-ASCII and escaped strings, duplicate-laden lists, maps with colliding keys, optionals, instants) through four back ends and compares each value with the model's; numeric and string literal forms are decoded on both sides.",
+         "Trusted: Coq kernel, extraction, driver (hardware doubles; ports of math.Pow for integral and +-0.5 exponents, Min / Max; shortest float printing), harness. Oracles not modelled: math.Pow with other fractional exponents (Go's Exp / Log), regexp and timelib (tables shipped per case).",
+         "DESIGN.md §5 C04"),
+ "C19": ("Coq proof over a transcription of the debug closure wrapper, debug/record.go and debug/render.go; differential correspondence of outcome, record entries and report text",
+         "Theorems in coq/Props/C19.v: debug evaluation is transparent; what each term kind records and when; the recorder keeps values and order, moves columns only right and never lets two entries share a column; the report's first line is the source; recorded single-line values appear at their column. Every run evaluates generated single-line programs (ASCII and non-ASCII identifiers and strings, multi-line values, unevaluated lazy branches, failing programs) in debug mode and compares the outcome, every recorded (value, column) entry in order and the whole report text with the model's, and checks the property's predicates on the implementation's own output.",
+         "Trusted: Coq kernel, extraction, driver, harness, the -tags verif hook exposing a record's entries.",
+         "DESIGN.md §5 C19"),
 }
 NOT_YET = "machinery for this property is not built yet (work in progress in this repository; see DESIGN.md §5)"
 
